@@ -232,7 +232,7 @@ def api_table():
   t['tagging.materialize_tags(clear_field_tags)'] = (
       lambda c, o: tagging.materialize_tags(c, clear_field_tags=True))
   t['tagging.get_tags'] = lambda c, o: [
-      tagging.get_tags(c, n) for n in _named(c)]
+      fdl.get_tags(c, n) for n in _named(c)]
   t['diffing.build_diff(old=input)'] = lambda c, o: diffing.build_diff(c, o)
   t['diffing.build_diff(new=input)'] = lambda c, o: diffing.build_diff(o, c)
   t['diffing.align_by_id'] = lambda c, o: diffing.align_by_id(c, o)
@@ -253,18 +253,18 @@ def api_table():
   t['validation.check_types'] = lambda c, o: check_types.check_types(c)
   t['validation.get_type_errors'] = (
       lambda c, o: check_types.get_type_errors(c))
-  t['codegen.new_codegen'] = lambda c, o: codegen.new_codegen(c).code
+  t['codegen.new_codegen'] = lambda c, o: codegen.new_codegen(c)
   t['codegen.new_codegen(history)'] = lambda c, o: codegen.new_codegen(
-      c, include_history=True).code
+      c, include_history=True)
   t['codegen.auto_config_codegen'] = (
-      lambda c, o: codegen.auto_config_codegen(c).code)
+      lambda c, o: codegen.auto_config_codegen(c))
   t['codegen.auto_config_codegen(complexity)'] = (
       lambda c, o: codegen.auto_config_codegen(
-          c, max_expression_complexity=1).code)
+          c, max_expression_complexity=1))
   t['codegen.auto_config_codegen(sub_fixtures)'] = (
       lambda c, o: codegen.auto_config_codegen(c, sub_fixtures={
           'sub_fixture': x for x in [first_nested_buildable(c)]
-          if x is not None}).code)
+          if x is not None}))
   t['codegen.codegen_dot_syntax'] = (
       lambda c, o: '\n'.join(codegen.codegen_dot_syntax(c).lines()))
   t['codegen_diff.fiddler_from_diff(old=input)'] = (
@@ -276,7 +276,8 @@ def api_table():
   t['select.iterate'] = lambda c, o: list(selectors.select(c, N.node))
   t['select.get'] = lambda c, o: list(selectors.select(c, N.node).get('x'))
   t['select.tag.iterate'] = lambda c, o: list(selectors.select(c, tag=N.TagA))
-  t['select.all'] = lambda c, o: list(selectors.select(c))
+  t['select.partial_type'] = lambda c, o: list(selectors.select(
+      c, N.node, buildable_type=fdl.Partial, check_nonempty=False))
   t['grep'] = lambda c, o: grep_lib.grep(c, 'L1|node', output_fn=lambda s: 0)
   t['cast'] = lambda c, o: fdl.cast(fdl.Partial, c)
   t['copy_with'] = lambda c, o: fdl.copy_with(c, **{
